@@ -3,7 +3,7 @@
    examples of Properties_C02.v / Properties_C03.v. *)
 From Coq Require Import QArith Qcanon.
 From Amgcl Require Import Scalar QcInst Vec Crs Kernels KernelsProofs MatOps MatOpsProofs Relax DenseSolve
-  Amg AmgExec AmgProofs AmgProofs2 AmgProofs3 AmgProofs4 AmgProofs5 AmgProofs6.
+  Amg AmgExec AmgProofs AmgProofs2 AmgProofs3 AmgProofs4 AmgProofs5 AmgProofs6 AmgProofs7 AmgProofs8.
 From Amgcl Require Export AmgExampleData.
 Local Close Scope Qc_scope.
 Local Close Scope Q_scope.
@@ -80,10 +80,29 @@ Proof.
   split; [exact H1|]. split; [exact H2|]. split; [exact H3|]. split; [exact H4|]. apply IH, H5.
 Qed.
 
+Definition gs_diag_okb (A : crs) : bool :=
+  forallb (fun i => let d := gsD i (nth i (rows A) []) s1 in
+                    negb (seqb d s0) && seqb (mget A i i) d) (seq 0 (nrows A)).
+
+Lemma gs_diag_okb_ok A : gs_diag_okb A = true -> gs_diag_ok A.
+Proof.
+  intros H i Hi. unfold gs_diag_okb in H. rewrite forallb_forall in H.
+  assert (Hi' : In i (seq 0 (nrows A))) by (apply in_seq; lia). specialize (H i Hi').
+  cbv zeta in H. apply andb_prop in H as [H1 H2]. split.
+  - intro E. apply negb_true_iff in H1. rewrite E in H1.
+    assert (seqb (@s0 S) s0 = true) by (apply Seqb; reflexivity). congruence.
+  - apply Seqb, H2.
+Qed.
+
+Lemma gs_levels_check (ls : list (@ldesc S)) :
+  forallb (fun l => gs_diag_okb (ld_A l)) ls = true -> forall l, In l ls -> gs_diag_ok (ld_A l).
+Proof. intros H l Hl. rewrite forallb_forall in H. apply gs_diag_okb_ok, H, Hl. Qed.
+
 End Checkers.
 
 Definition exLvls := std_levels exJac exH.
 Definition exLvls' := std_levels exJac exH'.
+Definition exLvlsGS := std_levels (@RGS QcS) exH'.
 
 (* scratch well-formedness as a boolean on the level sizes *)
 Section ScrCheck.
